@@ -554,6 +554,9 @@ def run(ctx):  # noqa: F811
     _c03b.r03_1b_slot_classes(ctx)  # which slots are a routine's own (spilled around re-entrant calls) and which are shared (never spilled)
     r02_5_return(ctx)
     r02_6_recursive_abi_probe(ctx)
+    from rules.lowering_sem import r04_9_whole_program
+
+    r04_9_whole_program(ctx)  # every callsub reaches the routine it names and every routine returns to its caller (shared with C04)
     return (
         "Bounded partial evaluation of the spill/restore builder pushed through an abstract stack machine (all strategies x arities x caller/callee kinds); "
         "abstract evaluation of SubroutineEval.evaluate/__proto over parameter-kind shapes in both conventions (argument binding, frame indices, proto, ABI output cell, deferred load); "
